@@ -14,8 +14,15 @@ const D9: &str = "D9: a calculation that overflows rust_decimal panics inside th
 pub struct Session { pub responses: Vec<Value>, pub exit_ok: bool, pub timed_out: bool }
 
 /// run one session: handshake, then `reqs` (each a JSON-RPC request with an id), pipelined or one at a time
-pub fn session(reqs: &[Value], pipelined: bool) -> Session {
-    let mut child = Command::new(cli::bin()).arg("mcp").stdin(Stdio::piped()).stdout(Stdio::piped()).stderr(Stdio::null()).spawn().expect("start cgt-tool mcp");
+pub fn session(reqs: &[Value], pipelined: bool) -> Session { session_in(None, reqs, pipelined) }
+
+/// the same with the server started in a given directory (which is also its HOME): the directory's
+/// `config.toml` is then the one the server finds, as the CLI does when run there
+pub fn session_in(dir: Option<&std::path::Path>, reqs: &[Value], pipelined: bool) -> Session {
+    let mut cmd = Command::new(cli::bin());
+    cmd.arg("mcp").stdin(Stdio::piped()).stdout(Stdio::piped()).stderr(Stdio::null());
+    if let Some(d) = dir { cmd.current_dir(d).env("HOME", d); }
+    let mut child = cmd.spawn().expect("start cgt-tool mcp");
     let mut stdin = child.stdin.take().expect("stdin");
     let stdout = child.stdout.take().expect("stdout");
     let (tx, rx) = mpsc::channel::<String>();
@@ -59,7 +66,7 @@ pub fn result_text(v: &Value) -> Option<String> { v["result"]["content"][0]["tex
 
 pub fn run(ctx: &mut Ctx) {
     let prop = "C20";
-    ctx.ev.rule = "generated sessions of 4–14 JSON-RPC requests over the five tools and the resource methods (valid ledgers, uncovered ledgers, garbage text, wrong argument types, missing fields, unknown tools, bad currencies/months, unknown resource URIs), each run pipelined (all lines written at once, handled concurrently) and one at a time, against the real `cgt-tool mcp` process: every request id gets exactly one response (result or JSON-RPC error), no other ids appear, the server exits 0 when its input closes; the same request gives the same answer at any position, in either mode; calculate_report's JSON equals `cgt-tool report --format json` for the same text (tax years and holdings); every disposal it lists is explained by explain_matching with the legs the CLI reports (rule, exact quantity, acquisition date, cost and gain to the penny; the first session always carries a ledger whose 30-day matches cross 5 April and 31 December, and a ledger with disposals on 5 and 6 April of leap and ordinary years, 29 February and the calendar-year ends). convert_to_dsl on the JSON that `cgt-tool parse` prints for mixed-currency ledgers (price, fees, total and tax each in its own currency): its DSL read back by the CLI is that JSON, and the CLI's report of it equals calculate_report's answer for the JSON. A single-year request asked after the all-years request of the same text must answer as in a fresh session and as the CLI's --year (years with and without disposals). Two sessions of 12–30 failing requests followed by good ones must answer the good ones as a fresh session does. Known-finding classes mcpUndecodable (D15) and overflowMagnitude (D9) are probed once per run and not mixed into the sessions. Non-trivial = sessions with ≥ 1 failing request followed by a succeeding one; distinct by request list.".into();
+    ctx.ev.rule = "generated sessions of 4–14 JSON-RPC requests over the five tools and the resource methods (valid ledgers, uncovered ledgers, garbage text, wrong argument types, missing fields, unknown tools, bad currencies/months, unknown resource URIs), each run pipelined (all lines written at once, handled concurrently) and one at a time, against the real `cgt-tool mcp` process: every request id gets exactly one response (result or JSON-RPC error), no other ids appear, the server exits 0 when its input closes; the same request gives the same answer at any position, in either mode; calculate_report's JSON equals `cgt-tool report --format json` for the same text (tax years and holdings); every disposal it lists is explained by explain_matching with the legs the CLI reports (rule, exact quantity, acquisition date, cost and gain to the penny; the first session always carries a ledger whose 30-day matches cross 5 April and 31 December, and a ledger with disposals on 5 and 6 April of leap and ordinary years, 29 February and the calendar-year ends). With an exemption override file (./config.toml adding 2026 and changing 2024) the server and the CLI started in that directory give the same report. convert_to_dsl on the JSON that `cgt-tool parse` prints for mixed-currency ledgers (price, fees, total and tax each in its own currency): its DSL read back by the CLI is that JSON, and the CLI's report of it equals calculate_report's answer for the JSON. A single-year request asked after the all-years request of the same text must answer as in a fresh session and as the CLI's --year (years with and without disposals). Two sessions of 12–30 failing requests followed by good ones must answer the good ones as a fresh session does. Known-finding classes mcpUndecodable (D15) and overflowMagnitude (D9) are probed once per run and not mixed into the sessions. Non-trivial = sessions with ≥ 1 failing request followed by a succeeding one; distinct by request list.".into();
     if !cli::available() { ctx.ev.notes.push("cgt-tool binary not found: nothing checked".into()); ctx.ev.violation("correspondence", "cgt-tool binary missing".into(), "# property C20\n".into()); return; }
     let mut r = Rng::new(ctx.seed ^ 0xC20);
     let mut cfg = GenCfg::standard();
@@ -297,6 +304,30 @@ pub fn run(ctx: &mut Ctx) {
                     if a["tax_years"] != b["tax_years"] || a["holdings"] != b["holdings"] { ctx.ev.violation("oracle", "calculate_report on a JSON ledger differs from the CLI's report of convert_to_dsl's DSL for it".into(), case); }
                 }
                 (false, Some(m)) if !m.starts_with("error") && serde_json::from_str::<Value>(&m).map(|v| v.get("tax_years").is_some()).unwrap_or(false) => ctx.ev.violation("oracle", "the CLI refuses the converted ledger that calculate_report reports on".into(), case),
+                _ => {}
+            }
+        }
+    }
+    // an exemption override file in the working directory: the server and the CLI, started in the same
+    // directory, must both use it — a year the file adds, and a year whose amount it changes
+    {
+        let sc = cli::Scratch::new();
+        sc.write("config.toml", "[exemptions]\n\"2026\" = 3100\n\"2024\" = 4321\n");
+        for (k, text) in ["2026-05-01 BUY ACME 100 @ 10\n2026-09-01 SELL ACME 40 @ 15\n", "2024-05-01 BUY ACME 100 @ 10\n2024-09-01 SELL ACME 40 @ 15\n"].iter().enumerate() {
+            ctx.ev.evaluations += 1;
+            ctx.ev.count("config-override-sessions");
+            sc.write("in.cgt", text);
+            let cli_rep = cli::run(&sc, &["report", "in.cgt", "--format", "json"]);
+            let s = session_in(Some(&sc.dir), &[call(1, "calculate_report", json!({"transactions": text}))], k == 0);
+            let ans = s.responses.iter().find(|v| v["id"].as_u64() == Some(1)).and_then(result_text);
+            let case = format!("# property C20\n# oracle: ./config.toml holds [exemptions] \"2026\" = 3100, \"2024\" = 4321; `cgt-tool report in.cgt --format json` and MCP calculate_report started in that directory\n{text}");
+            match (cli_rep.code == Some(0), ans) {
+                (true, Some(m)) => {
+                    let (a, b): (Value, Value) = (serde_json::from_slice(&cli_rep.stdout).unwrap_or_default(), serde_json::from_str(&m).unwrap_or_default());
+                    if a["tax_years"] != b["tax_years"] || a["holdings"] != b["holdings"] { ctx.ev.violation("oracle", "with an exemption override file in the working directory, calculate_report differs from the CLI's report".into(), case); }
+                }
+                (true, None) => ctx.ev.violation("oracle", "with an exemption override file in the working directory, the CLI reports but calculate_report answers with an error".into(), case),
+                (false, Some(m)) if serde_json::from_str::<Value>(&m).map(|v| v.get("tax_years").is_some()).unwrap_or(false) => ctx.ev.violation("oracle", "calculate_report reports where the CLI, in the same directory, refuses".into(), case),
                 _ => {}
             }
         }
